@@ -137,10 +137,11 @@ def main(prop, fn):
     try:
         rc = fn()
     except MachineryError as ex:
-        print("MACHINERY-FAILURE property=%s: %s" % (prop, ex), file=sys.stderr)
+        # sys.__stderr__: the drivers point sys.stderr at /dev/null to silence the progress bars of the code under test
+        print("MACHINERY-FAILURE property=%s: %s" % (prop, ex), file=sys.__stderr__)
         return MACHINERY
     except Exception:
-        print("MACHINERY-FAILURE property=%s: unexpected exception in the harness" % prop, file=sys.stderr)
-        traceback.print_exc()
+        print("MACHINERY-FAILURE property=%s: unexpected exception in the harness" % prop, file=sys.__stderr__)
+        traceback.print_exc(file=sys.__stderr__)
         return MACHINERY
     return rc
